@@ -46,7 +46,7 @@ Record inv (s : state) : Prop := {
   inv_empty : past_disconnect (shut s) = true -> conns s = [];
   inv_waiting : forall i c, nth_error (callers s) i = Some c -> cst c = CWait -> reqdone c = false ->
                 exists o, worker s = WRun i (reqno c) o;
-  inv_run_done : run_done s = true -> worker s = WExited
+  inv_run_done : run_done s = true -> worker s <> WNotStarted
 }.
 
 Lemma inv_init progs : inv (init progs).
@@ -67,7 +67,7 @@ Ltac crush_step H :=
 
 (* the fields that do not talk about individual callers *)
 Lemma inv_step_global s l s' : inv s -> step s l = Some s' ->
-  (worker s' = WExited -> quit s' = true) /\ (quit s' = true <-> shut s' <> SNot) /\ (past_strand (shut s') = true -> worker s' = WExited) /\ (past_disconnect (shut s') = true -> conns s' = []) /\ (run_done s' = true -> worker s' = WExited).
+  (worker s' = WExited -> quit s' = true) /\ (quit s' = true <-> shut s' <> SNot) /\ (past_strand (shut s') = true -> worker s' = WExited) /\ (past_disconnect (shut s') = true -> conns s' = []) /\ (run_done s' = true -> worker s' <> WNotStarted).
 Proof.
   intros [I1 I2 I3 I4 _ I6] H.
   destruct (shut s) eqn:Es; destruct (worker s) eqn:Ew; destruct (quit s) eqn:Eq; destruct (run_done s) eqn:Er;
@@ -84,7 +84,7 @@ Proof.
   intros Hinv H. pose proof (inv_step_global s l s' Hinv H) as (G1 & G2 & G3 & G4 & G6).
   destruct Hinv as [I1 I2 I3 I4 I5 I6].
   split; try assumption. clear G1 G2 G3 G4 G6.
-  destruct l as [i|i|i|i|i| | | | | | | | ]; cbn [step] in H.
+  destruct l as [i|i|i|i|i| | | | | | | | | | ]; cbn [step] in H.
   - (* LStart *)
     destruct (nth_error (callers s) i) as [c|] eqn:Ec; [|discriminate].
     destruct (cst c) eqn:Est; try discriminate. destruct (prog c) as [|o rest] eqn:Ep; [discriminate|].
@@ -122,7 +122,7 @@ Proof.
     + cbn in Hw. discriminate.
     + exact (I5 j c' Hj Hw Hd).
   - (* LExec *)
-    destruct (worker s) as [|i n o|] eqn:Ew; try discriminate.
+    destruct (worker s) as [| |i n o|] eqn:Ew; try discriminate.
     inv_some H. cbn.
     intros j c' Hj Hw Hd. exfalso.
     apply nth_error_upd in Hj as [(<- & c0 & Hc0 & ->)|(Hne & Hj)].
@@ -139,6 +139,12 @@ Proof.
     intros j c' Hj Hw Hd. destruct (I5 j c' Hj Hw Hd) as [o Ho]. discriminate.
   - destruct (shut s) eqn:Es; try discriminate. inv_some H. cbn. exact I5.
   - destruct (shut s) eqn:Es; try discriminate. inv_some H. cbn. exact I5.
+  - (* LRunStart *)
+    destruct (worker s) eqn:Ew; try discriminate. inv_some H. cbn.
+    intros j c' Hj Hw Hd. destruct (I5 j c' Hj Hw Hd) as [o Ho]. discriminate.
+  - (* LRunFail *)
+    destruct (worker s) eqn:Ew; try discriminate; destruct (run_done s); try discriminate; inv_some H; cbn;
+      rewrite ?Ew; exact I5.
   - destruct (worker s) eqn:Ew; try discriminate.
     destruct (quit s && negb (run_done s) && forallb (fun c => negb (handler c) || finished c) (callers s)); [|discriminate].
     inv_some H. cbn. intros j c' Hj Hw Hd. destruct (I5 j c' Hj Hw Hd) as [o Ho]. discriminate.
@@ -171,7 +177,7 @@ Theorem state_changes_in_section s l s' :
   step s l = Some s' -> conns s' <> conns s -> worker_in_section s = true \/ shutdown_in_section s = true.
 Proof.
   intros H Hc. unfold worker_in_section, shutdown_in_section.
-  destruct l as [i|i|i|i|i| | | | | | | | ]; cbn [step] in H;
+  destruct l as [i|i|i|i|i| | | | | | | | | | ]; cbn [step] in H;
     repeat match type of H with
            | match ?x with _ => _ end = Some _ => destruct x eqn:?; try discriminate
            | (if ?x then _ else _) = Some _ => destruct x eqn:?; try discriminate
@@ -253,7 +259,7 @@ Theorem no_deadlock s : reachable s ->
   quiescent s = true \/ exists l s', l <> LShutStart /\ step s l = Some s'.
 Proof.
   intros Hr. destruct (reachable_inv s Hr) as [I1 I2 I3 I4 I5 I6].
-  destruct (worker s) as [|wi wn wo|] eqn:Ew.
+  destruct (worker s) as [| |wi wn wo|] eqn:Ew.
   - (* worker idle *)
     destruct (first_unfinished 0 (callers s)) as [[i c]|] eqn:Ef.
     + apply first_unfinished_some in Ef as (_ & Hn & Hf). rewrite Nat.sub_0_r in Hn.
@@ -325,7 +331,7 @@ Qed.
 Theorem step_decreases s l s' : step s l = Some s' -> (measure s' < measure s)%nat.
 Proof.
   intros H. unfold measure.
-  destruct l as [i|i|i|i|i| | | | | | | | ]; cbn [step] in H.
+  destruct l as [i|i|i|i|i| | | | | | | | | | ]; cbn [step] in H.
   - destruct (nth_error (callers s) i) as [c|] eqn:Ec; [|discriminate].
     destruct (cst c) eqn:Est; try discriminate. destruct (prog c) as [|o rest] eqn:Ep; [discriminate|].
     inv_some H. cbn.
@@ -351,7 +357,7 @@ Proof.
     inv_some H. cbn.
     pose proof (callers_measure_upd (finish_call RClosed) _ _ _ Ec) as Hm.
     unfold caller_measure in Hm at 1 2. cbn in Hm. rewrite Est in Hm. lia.
-  - destruct (worker s) as [|i n o|] eqn:Ew; try discriminate.
+  - destruct (worker s) as [| |i n o|] eqn:Ew; try discriminate.
     inv_some H. cbn. rewrite callers_measure_upd_same; [lia|].
     intros c. unfold caller_measure. destruct (cst c) eqn:Est; rewrite ?Est; try reflexivity.
     destruct (Nat.eqb (reqno c) n); cbn [prog cst]; rewrite ?Est; reflexivity.
